@@ -330,12 +330,12 @@ def gen_cases(ctx):
     ]
     for t in fixed:
         cases.append((t, "fixed"))
-    for _ in range(ctx.scale(600, 6000)):
+    for _ in range(ctx.scale(600, 14000)):
         cases.append((gen_main(rng), "random"))
-    for _ in range(ctx.scale(20, 200)):
+    for _ in range(ctx.scale(20, 400)):
         for t in gen_insertions(rng):
             cases.append((t, "stop-at-each-point"))
-    for _ in range(ctx.scale(6, 40)):
+    for _ in range(ctx.scale(6, 60)):
         for _try in range(50):
             t = gen_main(rng, parked=True)
             if " Z" in t and any(o == "Z" for o in t.split()):
